@@ -204,6 +204,38 @@ def direct_diffuse(ctx, rng, ncfg, nev):
             ctx.violation("permutation", f"Diffuse integral changes under event reordering: {pm[:3]!r} vs {base[:3]!r}", wit)
 
 
+def horizon_face(ctx):
+    """u4 = 0 is the horizon itself: the line of sight is tangent to the ground (cos theta_NV = 0), the
+    per-event weight diverges there (an integrable singularity of the estimator). The code keeps such an
+    event and gives it whatever 1 / cos(theta_NV) rounds to: a huge negative, +inf or NaN weight, so the
+    reported integral is negative / not monotone in the threshold / above 0.826 x the geometric one.
+    Probed on the face itself and one ulp-scale step inside; classified by mechanism."""
+    from nuspacesim.config import NssConfig
+    from nuspacesim.simulation.geometry.region_geometry import RegionGeom
+
+    for alt in (33.0, 525.0, 300.0, 36000.0, 10.0, 600.0):
+        cfg = NssConfig()
+        cfg.detector.initial_position.altitude = alt
+        aH = G.horizon_nadir_angle(G.R_ASTROPY, alt)
+        if np.radians(7) >= aH:
+            cfg.simulation.angle_from_limb = float(0.5 * aH)
+        cfg = core.validated(cfg, "C03 horizon-face configuration")
+        g = RegionGeom(cfg)
+        u = np.array([[0.5, 0.5, 0.5, 0.5], [0.5, 0.5, 0.5, 0.5], [0.5, 0.5, 0.5, 0.5], [0.0, 2.0**-53, 1e-15, 0.5]])
+        g.throw(u)
+        nk = int(np.sum(g.event_mask))
+        if nk == 0:
+            continue
+        with np.errstate(all="ignore"):
+            mc, geo, npass, _ = g.mcintegral(np.full(nk, 100.0), -1.0, np.full(nk, 0.5), 10.0, 1.0, 1.0)
+            cnv = np.asarray(g.costhetaNSubV)[np.asarray(g.event_mask, bool)]
+        ctx.count("horizon-face")
+        if not (np.isfinite(mc) and np.isfinite(geo) and mc >= 0 and geo >= 0 and mc <= BSHR * geo * (1 + 1e-12)):
+            on_face = bool(np.any(~(cnv > 0)))
+            key = "diffuse:horizon-face-weight" if on_face else "bound"
+            ctx.violation(key, f"Diffuse altitude {alt} km: a batch containing the horizon itself (u4 in {{0, 2^-53, 1e-15}}; cos(theta_NV) of the kept events {cnv.tolist()}) gives integral {mc!r}, geometric {geo!r}, passing {npass}", {"altitude": alt, "u4": [0.0, 2.0**-53, 1e-15]})
+
+
 def target_cfg(rng, k):
     from nuspacesim.config import NssConfig
 
@@ -449,6 +481,7 @@ def shard(ctx, si, payload):
 
 def run(ctx):
     T = ctx.thorough()
+    horizon_face(ctx)
     runs = [
         ("Diffuse", 525.0, None, None, 10.0, 0.002, 400, True),
         ("Diffuse", 33.0, "power", "mono", 5.0, 0.0005, 400, True),
